@@ -17,7 +17,7 @@ EnumEnvironment ==
     /\ Moves < MaxMoves
     /\ \/ \E op \in EnumSchedOps :
             CallOK(op) /\ ApiCall(op)
-            /\ Log([a |-> "Call", t |-> "S", id |-> op.id, k |-> op.c.k, e |-> op.c.e, o |-> op.c.o, last |-> op.last, pre |-> Pre])
+            /\ Log([a |-> "Call", t |-> "S", id |-> op.id, k |-> op.c.k, e |-> op.c.e, o |-> op.c.o, end |-> op.c.end, last |-> op.last, pre |-> Pre])
        \/ \E id \in Ids :
             ApiCall(RelOp(id)) /\ Log([a |-> "Call", t |-> "R", id |-> id, pre |-> Pre])
        \/ \E d \in EnumSteps :
